@@ -326,10 +326,16 @@ def dist(
         return dist(p.project(q), q)
     if isinstance(p, PointTensor) and isinstance(q, SubspaceTensor):
         return dist(q.project(p), p)
-    if isinstance(p, SubspaceTensor) and isinstance(q, PlaneTensor):
+    if isinstance(p, SubspaceTensor) and not isinstance(p, PlaneTensor) and isinstance(q, PlaneTensor):
         return dist(q, p)
     if isinstance(p, PlaneTensor) and isinstance(q, LineTensor):
         return dist(p, q.base_point)
+    if isinstance(p, PlaneTensor) and isinstance(q, PlaneTensor):
+        # distance of parallel planes: use the foot of the perpendicular from the origin as a finite point of q
+        # (the rows of basis_matrix can be points at infinity)
+        n = q.array[..., :-1]
+        x = np.append(-q.array[..., -1:] * n, np.sum(n * n, axis=-1, keepdims=True), axis=-1)
+        return dist(p, PointCollection.from_array(x))
     if isinstance(p, PlaneTensor) and isinstance(q, SubspaceTensor):
         return dist(p, PointCollection.from_array(q.basis_matrix[0, :]))
 
